@@ -444,6 +444,7 @@ func checkTranslate(c *Ctx) {
 	tb := newDeepTB(tr, genName)
 	wi := windowModel(tr, tb, "param[0]")
 	poolHygiene(c, "SHAPE-XLATE", family(tr))
+	frameAlignment(c, "SHAPE-XLATE", family(tr))
 	c.judge(wi.State, "SHAPE-XLATE", "Translate:window of 3 over every letter", tr.Pos(),
 		"every input letter is appended to the window unconditionally; a region runs exactly at Len()==3 and resets the window; the loop leaves only at end of input", wi.Why)
 	if wi.State == holds {
